@@ -973,12 +973,17 @@ fn emit<'tcx>(tcx: TyCtxt<'tcx>, dir: &str) {
                     cx.const_(did, &mut body)
                 }
             }
+            _ => {}
+        }
+    }
+    // functions, methods and closures: every body owner (closures are not crate items)
+    for ldid in tcx.hir_body_owners() {
+        let did = ldid.to_def_id();
+        match tcx.def_kind(did) {
             DefKind::Fn | DefKind::AssocFn | DefKind::Closure => {
-                if tcx.hir_maybe_body_owned_by(ldid).is_some() {
-                    if let Some((f, c)) = cx.function(ldid, &mut body) {
-                        nfn += f;
-                        ncalls += c;
-                    }
+                if let Some((f, c)) = cx.function(ldid, &mut body) {
+                    nfn += f;
+                    ncalls += c;
                 }
             }
             _ => {}
